@@ -54,7 +54,8 @@ def gen_target(rng):
     fields = []
     for i in range(nf):
         t = rng.choice(TYPES)
-        ln = rng.choice([None, None, "3", "K_LEN", "K_LEN + 1", "16"])
+        ln = rng.choice([None, None, "3", "K_LEN", "K_LEN + 1", "16", "(K_LEN + 1) * 2", "2 * (K_LEN - 1)", "K_LEN * 3",
+                         "(K_LEN+1)*(K_LEN-2)", "K_LEN * K_LEN - 1", "0x10", "( 4 )"])
         fields.append([f"g{i}_{rng.choice(G.WORDS)}", t + (f"[{ln}]" if ln else "")])
     return {"name": name, "id": mid, "fields": fields}
 
@@ -130,6 +131,21 @@ def edits(t, rng):
         f = [list(x) for x in t["fields"]]
         f[i][1] = (f[i][1].split("[")[0] + "[7]") if "[7]" not in f[i][1] else f[i][1].split("[")[0]
         out.append(("field_length_text", dict(t, fields=f)))
+        withlen = [k for k, x in enumerate(t["fields"]) if "[" in x[1]]
+        if withlen:
+            # the smallest change of a length text: one digit of it (or an added term)
+            k = rng.choice(withlen)
+            f = [list(x) for x in t["fields"]]
+            base, ln = f[k][1].split("[", 1)
+            ln = ln.rsplit("]", 1)[0]
+            digits = [p for p, ch in enumerate(ln) if ch.isdigit()] if "x" not in ln.lower() else []
+            if digits:
+                p_ = rng.choice(digits)
+                ln2 = ln[:p_] + str(int(ln[p_]) % 9 + 1) + ln[p_ + 1:]
+            else:
+                ln2 = ln + " + 1"
+            f[k][1] = f"{base}[{ln2}]"
+            out.append(("length_expression_edit", dict(t, fields=f)))
         f = [list(x) for x in t["fields"]]
         del f[i]
         if f:
